@@ -16,6 +16,7 @@ references, state for values, constness and ownership as declared).  Calls no ov
 / OverflowError and run no body.  The lifetime ledger (constructor / destructor log) must balance over each history.
 """
 import concurrent.futures as cf
+import hashlib
 import json
 import os
 import random
@@ -74,22 +75,84 @@ def crash_key(rr, progress):
     return f"crash:{how}:step={step}"
 
 
+_memo = {}
+
+
+def materialise(ctx, case, sub=""):
+    """write the library of a case; returns (dir, model).  Built modules are cached per (library text, option set) under
+    the run's work dir, so that the witnesses of listed findings (which share a few libraries) are built once."""
+    tmp = ctx.casedir(str(case["id"]) + sub)
+    shutil.rmtree(tmp, ignore_errors=True)
+    os.makedirs(tmp)
+    if case.get("files"):
+        libgen.write_files(tmp, case["files"])
+    else:
+        natgen.generate(random.Random(case["libseed"]), "liba", n_classes=case.get("n_classes")).write(tmp)
+    h = hashlib.sha1()
+    for f in ("liba.h", "liba.cxx", "liba.model.json"):
+        h.update(open(os.path.join(tmp, f), "rb").read())
+    h.update(case.get("cfg", "native").encode())
+    cd = os.path.join(ctx.work, "libs", h.hexdigest()[:16])
+    if os.path.exists(os.path.join(cd, "BUILT")):
+        shutil.rmtree(tmp, ignore_errors=True)
+    else:
+        shutil.rmtree(cd, ignore_errors=True)
+        os.makedirs(os.path.dirname(cd), exist_ok=True)
+        os.rename(tmp, cd)
+    return cd, json.load(open(os.path.join(cd, "liba.model.json")))
+
+
+def get_module(ctx, b, case):
+    d, model = materialise(ctx, case)
+    mark = os.path.join(d, "BUILT")
+    if os.path.exists(mark):
+        st = json.load(open(mark))
+        return d, model, st["stage"], st["detail"]
+    stage, detail = build_module(b, d, case.get("cfg", "native"))
+    json.dump(dict(stage=stage, detail=detail), open(mark, "w"))
+    return d, model, stage, detail
+
+
+def prepare(chk):
+    """build the (few) libraries of the listed findings' witnesses in parallel before they are replayed one by one"""
+    b = core.build("asan")
+    core.build("plain")
+    seen, todo = set(), []
+    for f in chk.findings:
+        c = f.get("case")
+        if c:
+            k = json.dumps({x: c.get(x) for x in ("libseed", "n_classes", "cfg", "files")}, sort_keys=True)
+            if k not in seen:
+                seen.add(k)
+                todo.append(c)
+    if todo:
+        ctx = chk.ctx()
+        with cf.ThreadPoolExecutor(len(todo)) as ex:
+            list(ex.map(lambda c: get_module(ctx, b, dict(c, id="prep-%s" % c["id"])), todo))
+
+
 def run_case(ctx, case):
+    mk = json.dumps(case, sort_keys=True)
+    if mk in _memo:
+        return _memo[mk]
+    res = _run_case(ctx, case)
+    if str(case.get("id", "")).startswith("w"):
+        _memo[mk] = res
+    return res
+
+
+def _run_case(ctx, case):
     res = core.CaseResult()
     b = core.build("asan")
-    d = ctx.casedir(case["id"])
-    shutil.rmtree(d, ignore_errors=True)
-    os.makedirs(d)
-    if case.get("files"):
-        libgen.write_files(d, case["files"])
-        model = json.loads(case["files"]["liba.model.json"])
-    else:
-        lib = natgen.generate(random.Random(case["libseed"]), "liba")
-        lib.write(d)
-        model = lib.model
+    keep = str(case.get("id", "")).startswith("w")
     cfg = case.get("cfg", "native")
+    d, model, stage, detail = get_module(ctx, b, case)
     res.count("programs")
-    stage, detail = build_module(b, d, cfg)
+
+    def done():
+        if not keep:
+            shutil.rmtree(d, ignore_errors=True)
+        return res
     rcase = dict(id=case["id"], cfg=cfg, drvseed=case["drvseed"], nsteps=case["nsteps"], only=case.get("only"),
                  files=libgen.read_files(d))
     if stage is not None:
@@ -103,8 +166,7 @@ def run_case(ctx, case):
             res.inconclusive = stage + (": " + msg if msg else "")
             res.count("not_built")
             res.sample = dict(cfg=cfg, libseed=case.get("libseed"), outcome=stage, detail=detail[:400])
-        shutil.rmtree(d, ignore_errors=True)
-        return res
+        return done()
     env = {"PYTHONMALLOC": "malloc", "PYTHONDONTWRITEBYTECODE": "1", "PYTHONHASHSEED": "0",
            "ASAN_OPTIONS": core.SAN_ENV["ASAN_OPTIONS"] + ":verify_asan_link_order=0",
            "UBSAN_OPTIONS": "print_stacktrace=1:halt_on_error=1"}
@@ -115,8 +177,7 @@ def run_case(ctx, case):
         rr = core.run(cmd, timeout=900, env=env, preload=genbuild.asan_preload())
         if rr.timed_out:
             res.inconclusive = "driver timeout"
-            shutil.rmtree(d, ignore_errors=True)
-            return res
+            return done()
     line = next((l for l in rr.out.splitlines() if l.startswith("VFRESULT ")), None)
     if line is None:
         try:
@@ -125,8 +186,7 @@ def run_case(ctx, case):
             progress = ""
         res.count("interpreter_crashes")
         res.violation(crash_key(rr, progress), last_step=progress[:600], err=rr.err[-2500:], replay_case=rcase)
-        shutil.rmtree(d, ignore_errors=True)
-        return res
+        return done()
     out = json.loads(line[len("VFRESULT "):])
     if out["error"]:
         raise core.HarnessError("drv_native failed: " + out["error"][-2500:])
@@ -142,8 +202,7 @@ def run_case(ctx, case):
     res.sample = dict(cfg=cfg, libseed=case.get("libseed"), drvseed=case["drvseed"], calls=out["counts"].get("calls"),
                       events=out["counts"].get("trace_events_compared"), drops=out["counts"].get("drops"),
                       lib_features=model.get("features"))
-    shutil.rmtree(d, ignore_errors=True)
-    return res
+    return done()
 
 
 def main(chk):
